@@ -12,6 +12,7 @@ mod props_prm;
 mod props_repro;
 mod entropy;
 mod props_space;
+mod props_time;
 mod props_uniform;
 mod lattice;
 mod rngseam;
@@ -41,6 +42,8 @@ fn main() {
                 Some("thorough") => "thorough",
                 _ => "quick",
             };
+            let limit = std::env::var("MC_HANG_SECS").ok().and_then(|s| s.parse().ok()).unwrap_or(if tier == "quick" { 120 } else { 900 });
+            explore::start_watchdog(limit, prop.to_string());
             match prop {
                 "C01" | "C02" | "C03" | "C04" | "C05" => props_paths::run(prop, tier),
                 "C15" | "C16" | "C17" => props_tree::run(prop, tier),
@@ -50,6 +53,7 @@ fn main() {
                 "C12" => props_bounds::run_c12(tier),
                 "C14" => props_uniform::run(tier),
                 "C07" => props_repro::run(tier),
+                "C06" => props_time::run(tier),
                 "C08" => props_api::run("C08", tier),
                 _ => usage(),
             }
